@@ -326,9 +326,9 @@ pub fn run(or: &Oracles, prop: &str, max_windows: u64) -> WorldOutcome {
                                 // duplicate of one the pool already holds (same slot and type; for
                                 // notar-fallback also the same block)
                                 let already = held.get(&(*s, *ck)).is_some_and(|tags| *ck != CK::NotarFallback || tags.contains(t));
-                                if or.c08 && !oob && e.contains("Duplicate") && !already {
+                                if (or.c08 || or.c07) && !oob && e.contains("Duplicate") && !already {
                                     kernel::violation(
-                                        "C08",
+                                        if or.c08 { "C08" } else { "C07" },
                                         "bounds:new-certificate-refused-as-duplicate",
                                         format!("add_cert({ck:?}, slot {s}, block tag {t}) returned {e} although the pool holds no {ck:?} certificate for that slot{} (held there: {:?}; step {step})",
                                             if *ck == CK::NotarFallback { " and block" } else { "" },
@@ -392,7 +392,14 @@ pub fn run(or: &Oracles, prop: &str, max_windows: u64) -> WorldOutcome {
                                 kernel::violation("C07", "waiter:not-served", format!("wait_for_parent_ready({s}) registered a waiter although {r:?} are ready (step {step})"));
                             }
                         }
-                        waiters.push((*s, rx));
+                        // some callers give up waiting (the block producer does when the window is
+                        // skipped): the pair that becomes ready later must still be recorded
+                        if kernel::choose(O, 3) == 1 {
+                            kernel::probe("c07_waiter_abandoned");
+                            drop(rx);
+                        } else {
+                            waiters.push((*s, rx));
+                        }
                     }
                 },
                 Item::Standstill => h.standstill(),
